@@ -181,6 +181,9 @@ fn main() {
             let seed: u64 = args.get(3).and_then(|s| s.parse().ok()).unwrap_or(1);
             std::process::exit(mon::c07::coldstart(threads, seed));
         }
+        "hijri-newyears" => {
+            std::process::exit(mon::c19::hijri_newyears(&args[2]));
+        }
         "seek-rounding" => {
             let code = mon::c19::seek_rounding(&args[2], args.get(3).expect("out file"));
             std::process::exit(code);
